@@ -391,7 +391,7 @@ impl Check for C17 {
         vec!["the hook reports every mutating file operation (guarded by the shadow-vs-disk comparison of C03/C04)".into()]
     }
     fn cases(tier: Tier) -> u32 {
-        tier.pick(1600, 16000)
+        tier.pick(3200, 24000)
     }
     fn strategy(tier: Tier) -> BoxedStrategy<C17Case> {
         use proptest::prelude::*;
